@@ -17,6 +17,7 @@ ap.add_argument("-u", "--unwind", type=int, default=None)
 ap.add_argument("-m", "--mem", type=int, default=12)
 ap.add_argument("--tag", default=None)
 ap.add_argument("--stub", action="store_true")
+ap.add_argument("--nofs", action="store_true", help="--no-array-field-sensitivity")
 ap.add_argument("--root", default="/var/tmp/vprobe")
 ap.add_argument("-s", "--set", action="append", default=[], help="regex=N unwindset rule")
 ap.add_argument("harness", nargs="+")
@@ -46,6 +47,8 @@ def one(args):
         us = unwindset.discover(crate, q, os.path.join(root, "t%d" % (i % a.jobs)), os.path.join(root, "logs", h + ".loops.log"))
         if us: cbmc_args = ["--unwindset", us]
         print(h, "unwindset:", len(us.split(",")) if us else 0, "loops", flush=True)
+    if a.nofs:
+        cbmc_args = (cbmc_args or []) + ["--no-array-field-sensitivity"]
     r = kani_run.run_query(crate, full, os.path.join(root, "t%d" % (i % a.jobs)), os.path.join(root, "logs", h + "." + a.cfg + ".log"),
                            a.cap, mem_gb=a.mem, features=feats, no_default_features=nodef, debug_assertions=dbg,
                            unwind=a.unwind, only_tag=a.tag, stubbing=a.stub, cbmc_args=cbmc_args)
